@@ -309,6 +309,8 @@ def generate(rng, seed, run, tier, focus='C11', xmode=False):
             files[t] = dict(info, form='literal')
         elif kind == 'pk_w':
             what = rng.choice(['ctx', 'lat'])
+            if info['kind'] == 'lat':
+                what = 'lat'
             t = target('pickle', '.pkl')
             events.append([kind, nd, s, what, t, rng.choice([0, 1, 2, 3, 4, 5])])
             files[t] = dict(info, form='pk_' + what)
@@ -718,8 +720,11 @@ class Storage:
     def ev_pk_w(self, node, slot, what, target, proto):
         rec = self.rec
         info = self.slots.get((node, slot))
-        if info is None or info['kind'] != 'ctx':
+        if info is None or info['kind'] not in ('ctx', 'lat'):
             return rec.log('noop')
+        if info['kind'] == 'lat':
+            what = 'lat'      # the slot holds a loaded lattice: pickle it again (second generation)
+            rec.probe('second_generation_lattice_pickle')
         p = self.path(target)
         existed = os.path.exists(p)
         r = self.send(node, {'op': 'pickle_dump', 'slot': slot, 'what': 'lattice' if what == 'lat' else 'context',
